@@ -28,7 +28,7 @@ CHECKS = {
    text="seeded search over operation and fault sequences (3-25 ops per history, optimiser/model/preprocessing faults injected inside calls) on one curve object; after every op the object is compared bit for bit with a freshly built curve that applies only the stored settings; a repeated fit (fit_model() and the identical call again) must make zero optimiser calls and change nothing; module-level default tables must be untouched; a sample of runs is re-executed in a fresh interpreter (no earlier objects, other hash seed) and must give the same event log. A directed prefix rotates over every setting key and route per batch. Sampling, not enumeration: a clean batch is evidence with the stated reach.",
    note="oracle recomputes with nanite's own code (detects history/cache/alias dependence, not a formula wrong the same way from scratch); caller is well behaved (fresh copies); lmfit's default evaluation budget is capped at the optimiser seam and its abort-path use-after-free is neutralised there"),
  "C06": dict(engine="curve-sim", cat="exploration", ref="DESIGN.md 4.2",
-   text="seeded histories of valid, invalid and transiently failing preprocessing requests through all four request routes, interleaved with fits and edits; every accepted request is compared bit for bit with a fresh curve given the same steps/options, rejected requests must not be remembered, raw data must never change, and for flagged requests a fault is placed at EVERY seam call of that request (fail, check, retry, check). Other curves are preprocessed in between and one run in eight is compared with a fresh-interpreter twin that skips them (state leaking between objects of one process). Exploration over histories; complete over fault positions of the flagged requests.",
+   text="seeded histories of valid, invalid and transiently failing preprocessing requests through all four request routes, interleaved with fits and edits; every accepted request is compared bit for bit with a fresh curve given the same steps/options, rejected requests must not be remembered, raw data must never change, and for flagged requests a fault is placed at EVERY seam call of that request (fail, check, retry, check). Other curves are preprocessed in between and one run in eight is compared with a fresh-interpreter twin that skips them (state leaking between objects of one process). Three directed openings chosen by the run index (file with its own tip position; slope-correction defaults spelled out; recorded curves on which segment discovery gives up, processed by give-up and drift pipelines in turn). Exploration over histories; complete over fault positions of the flagged requests.",
    note="rejected = the exception left apply_preprocessing (phase bracket seam); reference is nanite's own preprocessing on a fresh curve; clones for fault enumeration are asserted observation-equal"),
  "C09": dict(engine="curve-sim", cat="exploration", ref="DESIGN.md 4.3",
    text="seeded histories mixing preprocessing, fits (successful, unsuccessful, aborted by injected faults), setting edits and rate_quality over all regressors, five training-set forms, feature subsets and LDA flags; totality, value == the statement's ordering (failed binary criterion 0, undefined feature -1, else prediction) applied to the features of a freshly rebuilt curve with an independently assembled reference rater, and == the standalone rater; 'none' -> -1; without a successful fit only -1 (or 0 below 600 approach points); range for the averaging tree regressors; one-directional cache rule via the get_rater seam with one-key variations of the request and held objects edited in place; the same feature selection in another order rates the same; shared regressor defaults untouched; repeat-call identity; re-execution of sampled runs in a fresh interpreter under another PYTHONHASHSEED.",
@@ -40,7 +40,7 @@ CHECKS = {
    text="seeded one-thing-at-a-time walks (8-30 states) over curve data, pipeline, options, every fit-setting key, parameter attributes, 1-ulp single-sample perturbations, representation variants and don't-care edits on a live object; for every pair of states 'hash equal <=> the harness's own canonical form of the effective settings equal'; every state is also hashed on a fresh object that receives the stored settings in shuffled order and other representations; stored hash after fit_model == recomputed hash, and a stored hash that survives any step must still be current; module-level defaults untouched; sampled walks are re-executed in a fresh interpreter under another PYTHONHASHSEED. Which value pairs are visited is seeded sampling biased to encoder hazards - exploration, not enumeration.",
    note="canonical form is independent of nanite's byte encoding; invalid setting combinations (fitter sanity checks raise) are outside the hash's domain; direct column edits by the harness drop results like a setting edit"),
  "C16": dict(engine="container-sim", cat="fault_enumeration", ref="DESIGN.md 4.6",
-   text="histories of saves into 1-2 rating containers (new curve, same curve again, similar and clearly different fits, several measurement files and enumerations) against a reference map of acknowledged entries, on real HDF5 files with a simulated clock; for every flagged save (one per history in the quick tier, every save in the thorough tier) a failure is injected at EVERY h5py write call of that save, before the call takes effect and after it, each on its own copy of the container: the container must stay readable and equal to the reference, then the save is retried and must be a proper acknowledged save. Complete over the fault positions of the flagged saves; exploration over histories.",
+   text="histories of saves into 1-2 rating containers (new curve, same curve again, similar and clearly different fits, several measurement files and enumerations) against a reference map of acknowledged entries, on real HDF5 files with a simulated clock; for every flagged save (one per history in the quick tier, every save in the thorough tier) a failure is injected at EVERY h5py write call of that save, before the call takes effect and after it, each on its own copy of the container: the container must stay readable and equal to the reference, then the save is retried and must be a proper acknowledged save. At the end of a run with two containers both are read as a folder through RateManager: the multiset of (rating features, user rating) pairs must be that of the stored curves. Complete over the fault positions of the flagged saves; exploration over histories.",
    note="failures are exceptions the save observes (OSError at a write call); process death inside an HDF5 write is not modelled; 'clearly different' = fit differs by more than 0.1 % of its amplitude"),
  "C18": dict(engine="registry-sim", cat="exploration", ref="DESIGN.md 4.7",
    text="seeded histories of register / deregister / load_model_from_file calls on the process-wide registry with real model files in a scratch directory: valid models in three forms, every single-fault mutant of a valid module (all of them are met in every batch), missing / syntactically broken / raising / import-failing files, directories already on sys.path, same file name in another directory, edited-and-reloaded files, either bytecode-flag preset; after every op registry == reference dict with model identity, documented error classes, sys.path (order included) and sys.dont_write_bytecode unchanged, loaded model == the code in that file (outputs on seeded arrays, fit bit-equal to the shipped twin), ancillary seeding incl. NaN.",
